@@ -2,6 +2,7 @@ package lib
 
 import (
 	"fmt"
+	"io"
 	"os"
 	"path/filepath"
 	"sync"
@@ -116,7 +117,9 @@ func NewStack(o StackOpts) (*Stack, error) {
 		config.Checkpoints = []chaincfg.Checkpoint{{Height: 1 << 30, Hash: &chainhash.Hash{}}}
 	}
 	chaincfg.MainNetParams.HeadersToIgnore = o.Ignore
-	log := zerolog.Nop()
+	// the service's default is logging.level=debug: every log statement is evaluated (arguments formatted, Stringers
+	// called) as in production; only the bytes go nowhere. A disabled logger would skip that code.
+	log := DiscardLog()
 	gin.SetMode(gin.ReleaseMode)
 	if o.Metrics {
 		if cfg.Metrics != nil {
@@ -170,3 +173,7 @@ func TempDB(name string) string {
 	_ = os.Remove(p + "-journal")
 	return p
 }
+
+// DiscardLog is the logger the runners hand to the code under check: debug level (the service's default), so that
+// every log statement is evaluated as in production, with the output discarded.
+func DiscardLog() zerolog.Logger { return zerolog.New(io.Discard).Level(zerolog.DebugLevel) }
